@@ -2,5 +2,24 @@
 package checks
 
 import (
+	_ "verif/harness/checks/c01"
+	_ "verif/harness/checks/c02"
+	_ "verif/harness/checks/c03"
+	_ "verif/harness/checks/c04"
+	_ "verif/harness/checks/c05"
+	_ "verif/harness/checks/c06"
 	_ "verif/harness/checks/c07"
+	_ "verif/harness/checks/c08"
+	_ "verif/harness/checks/c09"
+	_ "verif/harness/checks/c10"
+	_ "verif/harness/checks/c11"
+	_ "verif/harness/checks/c12"
+	_ "verif/harness/checks/c13"
+	_ "verif/harness/checks/c14"
+	_ "verif/harness/checks/c15"
+	_ "verif/harness/checks/c16"
+	_ "verif/harness/checks/c17"
+	_ "verif/harness/checks/c18"
+	_ "verif/harness/checks/c19"
+	_ "verif/harness/checks/c20"
 )
